@@ -101,13 +101,19 @@ CLAIMED = {
     note="Category other: cross-process byte identity is an observation about whole runs, not a function contract. The site classifier is a mechanical effect analysis, not an SMT proof; its source list and commuting patterns are trusted and stated.",
     technique="site-classification completeness + commutation obligations per unordered iteration site (ast effect patterns, contracts proved under arbitrary set order, L-PERM) + bounded cross-process stand-in",
     ref="6/C15"),
+
+ "C07": dict(cat="other",
+    text="MIXED. Proved deductively (structural clauses): get_names_in_ast_structure returns every guard, loop-variable and loop-bound name of the phase tree (recursive, over the tree ADT); get_var_name_generator seeds the fresh-name generator with every name read or written by a statement and every structural name; apply_statement_rewriter hands the rewriter generators seeded from all statements of the tree and from the tree itself (so, with A-UNG, no introduced name captures a user name); isolate_call delegates to the inherited mapper with the arity the overridden mapper needs and builds its statement with the guard, base|sub dependencies and fresh names. NOT proved: the other rewriters' bodies and the semantic clause (same values, same external calls), which only the bounded stand-in decides (independent executor before/after each pass and in the Fortran pass order).",
+    note="Category other: semantic preservation of program transformations over all programs is not within reach of the per-function contracts built here. Known finding D20 (calls hoisted out of untaken conditional-expression branches) listed by fingerprint.",
+    technique="contract-based deductive verification of the freshness / guard / call-shape clauses + bounded semantic stand-in",
+    ref="6/C07"),
 }
 
 NOT_APPLICABLE = {
  "C03": "about the behaviour of gfortran-compiled emitted text; no contract on the Python printer functions can express it without a Fortran semantics (translation validation, a different family)",
  "C12": "allocation/release happen in the compiled Fortran program; a contract on the printing functions cannot state exactly-once release on every path of the printed program",
 }
-NOT_BUILT = ["C01","C02","C04","C05","C06","C07","C08","C09","C10","C11","C13","C15","C16","C17","C18","C19","C20"]
+NOT_BUILT = []
 
 def main():
     checks = []
